@@ -35,7 +35,13 @@ pub struct Knobs {
     /// start a burst of consecutive AddressInUse outcomes (TCP): per-mille chance per send, burst length up to this
     pub p_inuse_burst: u64,
     pub inuse_burst_max: u64,
+    /// the wall clock is not monotonic: per-mille chance that a response is stamped with a reading taken after the clock stepped
+    /// BACK by several seconds (its receive time then lies before the send time of the probe it answers)
+    pub p_clock_stepped_back: u64,
 }
+
+/// set when a simulated environment ended a run because its iteration budget was used up (read and reset by strat::exec)
+pub static BUDGET_HIT: std::sync::atomic::AtomicBool = std::sync::atomic::AtomicBool::new(false);
 
 /// what the simulator actually delivered (ground truth for the oracles)
 #[derive(Clone, Debug)]
@@ -227,6 +233,7 @@ impl Env for SimEnv {
     fn on_recv(&mut self) -> RecvO {
         self.iters += 1;
         if self.iters > self.iter_budget {
+            BUDGET_HIT.store(true, std::sync::atomic::Ordering::SeqCst);
             return RecvO::Fatal(ErrK::Other);
         }
         if self.rng.chance(self.knobs.p_recv_fatal, 1000) {
@@ -240,7 +247,8 @@ impl Env for SimEnv {
                 let truth = truth.or_else(|| named.and_then(|q| self.sent_seqs.get(&q).map(|r| (q, *r))));
                 let t = due.max(now);
                 vclock::set(t);
-                let stamp = |d: &ResponseData| ResponseData::new(vclock::from_ns(t), d.addr, d.proto_resp.clone());
+                let ts = if self.rng.chance(self.knobs.p_clock_stepped_back, 1000) { t.saturating_sub(5_000_000_000) } else { t };
+                let stamp = |d: &ResponseData| ResponseData::new(vclock::from_ns(ts), d.addr, d.proto_resp.clone());
                 let r = match r {
                     Response::TimeExceeded(d, c, e) => Response::TimeExceeded(stamp(&d), c, e),
                     Response::DestinationUnreachable(d, c, e) => Response::DestinationUnreachable(stamp(&d), c, e),
